@@ -503,9 +503,10 @@ Proof.
   assert (N1 : dget (key_of (rol e1)) (read s1 l) = Some (FU u1)) by (rewrite A2; exact H9).
   assert (N2 : dget (key_of (rol e2)) (read s1 l) = Some (FU u2)) by (rewrite A2; exact H10).
   assert (Hkw : forall r, KW <> key_of r) by (intros [|]; discriminate).
-  destruct (dget KW (hget l (heap s1))) as [[u|zz|wl|]|] eqn:Ew.
-  all: try (
-    set (wl := next s1);
+  cbv zeta.
+  assert (Hfresh : inv (em_edit (bump (set_wheap s1 (hset (next s1) [(0, 0%Z); (1, z)] (wheap s1))))
+                          (refresh (bump (set_wheap s1 (hset (next s1) [(0, 0%Z); (1, z)] (wheap s1)))) e1) KW (VRef (next s1))) w u1 u2).
+  { set (wl := next s1);
     set (s2 := bump (set_wheap s1 (hset wl [(0, 0%Z); (1, z)] (wheap s1))));
     assert (Hr : refresh s2 e1 = e1') by (apply refresh_get; exact A1); rewrite Hr;
     apply (em_edit_inv s2 w u1 u2 e1' e2 (read s2 l) KW (VRef wl));
@@ -513,7 +514,9 @@ Proof.
     | intros l' El; inversion El; subst l'; destruct A3 as [Ha Hb]; split; [simpl; lia | intros k0 w0 Hin; apply Hb in Hin; simpl; lia]
     | apply (names_wheap_indep s1 s2 l _ _ eq_refl N1) | apply Hkw
     | right; split; [apply Hkw | apply (names_wheap_indep s1 s2 l _ _ eq_refl N2)]
-    | simpl; unfold wl; lia | exact H11 | exact H12 ]).
+    | simpl; unfold wl; lia | exact H11 | exact H12 ]. }
+  destruct (dget KW (hget l (heap s1))) as [[u|zz|wl|]|] eqn:Ew; try exact Hfresh.
+  destruct (dget 0 (hget wl (wheap s1))); [|exact Hfresh].
   set (s2 := set_wheap s1 (hset wl (dset 1 z (hget wl (wheap s1))) (wheap s1))).
   assert (Hr : refresh s2 e1 = e1') by (apply refresh_get; exact A1). rewrite Hr.
   apply (em_edit_inv s2 w u1 u2 e1' e2 (read s2 l) KW (VRef wl)).
